@@ -50,3 +50,7 @@ def run(rep: Report, repo: Repo, tier: str) -> None:
     # the page of a module is the last writer of its file (a module named index.cmake shares <dir>/index.rst with the index)
     with rep.isolated():
         fsrules.rule_index_before_pages(rep, repo, "C07-R12")
+    # members are rendered on the class directive, all of them, in list order (no regrouping / de-duplication of the lists)
+    from . import render as _render
+    with rep.isolated():
+        _render.rule_class_rendering(rep, repo, "C07-R13")
